@@ -31,9 +31,10 @@ type outTruth struct {
 
 type utxTruth struct {
 	ain      bool
-	outs     []outTruth // per UTXO output, in order
+	outs     []outTruth  // per UTXO output, in order
 	spent    []*ownedOut // the outputs a UTXO->UTXO spend consumes (one or two inputs)
-	withdraw bool       // UTXO -> account output (+ confidential change)
+	withdraw bool        // UTXO -> account output (+ confidential change)
+	ring     int         // ring size of a spend (1 = short-ring form)
 }
 
 type ownedOut struct {
@@ -262,7 +263,7 @@ func (w *world) genSpend(t *kernel.Tape) (*sent, *types.UTXOTransaction, error) 
 	change := new(big.Int).Sub(rest, toB)
 	bi, bsub := t.Int(len(w.wallets)), t.Int(3)
 	asub := 1 + t.Int(2)
-	truth := &utxTruth{spent: os, outs: []outTruth{{bi, bsub, toB}}}
+	truth := &utxTruth{spent: os, ring: len(rings[0]), outs: []outTruth{{bi, bsub, toB}}}
 	dests := []types.DestEntry{&types.UTXODestEntry{Addr: w.wallets[bi].subs[bsub], Amount: toB, IsSubaddress: bsub > 0}}
 	if withdraw {
 		if change.Sign() <= 0 {
@@ -406,7 +407,11 @@ type utxTamper struct {
 	// unused: the edited field takes no part in this transaction's
 	// authorisation (txid malleability only): recorded, not judged
 	unused bool
-	apply  func(x *tamperCtx, tx *types.UTXOTransaction, tr *utxTruth) bool
+	// auth: a structural edit of the spend authorisation itself (signature
+	// lists, pseudo outputs, ring form); these also get a share of the draws
+	// of their own
+	auth  bool
+	apply func(x *tamperCtx, tx *types.UTXOTransaction, tr *utxTruth) bool
 }
 
 func somePoint(x *tamperCtx) lk.Key {
@@ -658,6 +663,336 @@ var utxCatalogue = []utxTamper{
 	}},
 }
 
+// ringSize of the first confidential input (1 = short-ring form: classic ring
+// signatures in P.Ss; otherwise MLSAG in P.MGs).
+func ringSize(tx *types.UTXOTransaction) int {
+	if in := uinOf(tx); in != nil {
+		return len(in.KeyOffset)
+	}
+	return 0
+}
+
+func nUin(tx *types.UTXOTransaction) int {
+	n := 0
+	for _, in := range tx.Inputs {
+		if _, ok := in.(*types.UTXOInput); ok {
+			n++
+		}
+	}
+	return n
+}
+
+func randScalar(x *tamperCtx) lk.Key {
+	var k lk.Key
+	copy(k[:], x.t.Bytes(31)) // < 2^248: a reduced scalar
+	k[0] |= 1
+	return k
+}
+
+// Structural edits of the spend authorisation of a ring-signed transaction.
+// In the short-ring form the authorisation is P.Ss (one classic ring signature
+// per input) and the MLSAG slots are unused; in the MLSAG form it is the
+// other way round. Every edit of the used part is a forgery; an edit of the
+// unused part changes the transaction id only (dynUnused).
+func init() {
+	ssEdit := func(name string, f func(x *tamperCtx, tx *types.UTXOTransaction) bool) utxTamper {
+		return utxTamper{name: name, comp: "ring-signature", uin: true, rct: true, auth: true, apply: func(x *tamperCtx, tx *types.UTXOTransaction, tr *utxTruth) bool {
+			if !f(x, tx) {
+				return false
+			}
+			x.dynUnused = ringSize(tx) != 1
+			return true
+		}}
+	}
+	mgEdit := func(name string, lenChange bool, f func(x *tamperCtx, tx *types.UTXOTransaction) bool) utxTamper {
+		return utxTamper{name: name, comp: "ring-signature", uin: true, rct: true, auth: true, apply: func(x *tamperCtx, tx *types.UTXOTransaction, tr *utxTruth) bool {
+			if !f(x, tx) {
+				return false
+			}
+			// the number of MLSAG slots is part of the format in both forms
+			x.dynUnused = ringSize(tx) == 1 && !lenChange
+			return true
+		}}
+	}
+	utxCatalogue = append(utxCatalogue,
+		ssEdit("ss-dropped-all", func(x *tamperCtx, tx *types.UTXOTransaction) bool {
+			if len(tx.RCTSig.P.Ss) == 0 {
+				return false
+			}
+			tx.RCTSig.P.Ss = nil
+			return true
+		}),
+		ssEdit("ss-dropped-last", func(x *tamperCtx, tx *types.UTXOTransaction) bool {
+			n := len(tx.RCTSig.P.Ss)
+			if n == 0 {
+				return false
+			}
+			tx.RCTSig.P.Ss = tx.RCTSig.P.Ss[:n-1]
+			return true
+		}),
+		ssEdit("ss-dropped-first", func(x *tamperCtx, tx *types.UTXOTransaction) bool {
+			if len(tx.RCTSig.P.Ss) == 0 {
+				return false
+			}
+			tx.RCTSig.P.Ss = tx.RCTSig.P.Ss[1:]
+			return true
+		}),
+		ssEdit("ss-zeroed", func(x *tamperCtx, tx *types.UTXOTransaction) bool {
+			n := len(tx.RCTSig.P.Ss)
+			if n == 0 {
+				return false
+			}
+			i := x.t.Int(n)
+			if tx.RCTSig.P.Ss[i] == (lk.Signature{}) {
+				tx.RCTSig.P.Ss[i] = lk.Signature{C: lk.EcScalar(randScalar(x)), R: lk.EcScalar(randScalar(x))}
+				return true
+			}
+			tx.RCTSig.P.Ss[i] = lk.Signature{}
+			return true
+		}),
+		ssEdit("ss-swapped", func(x *tamperCtx, tx *types.UTXOTransaction) bool {
+			ss := tx.RCTSig.P.Ss
+			if len(ss) < 2 || ss[0] == ss[1] {
+				return false
+			}
+			ss[0], ss[1] = ss[1], ss[0]
+			return true
+		}),
+		ssEdit("ss-first-repeated", func(x *tamperCtx, tx *types.UTXOTransaction) bool {
+			ss := tx.RCTSig.P.Ss
+			if len(ss) < 2 || ss[0] == ss[1] {
+				return false
+			}
+			ss[1] = ss[0]
+			return true
+		}),
+		utxTamper{name: "ss-extra-appended", comp: "unused", uin: true, rct: true, unused: true, apply: func(x *tamperCtx, tx *types.UTXOTransaction, tr *utxTruth) bool {
+			// a slot beyond the last input is read by nobody in either form
+			tx.RCTSig.P.Ss = append(tx.RCTSig.P.Ss, lk.Signature{C: lk.EcScalar(randScalar(x)), R: lk.EcScalar(randScalar(x))})
+			return true
+		}},
+		mgEdit("mgs-dropped-all", true, func(x *tamperCtx, tx *types.UTXOTransaction) bool {
+			if len(tx.RCTSig.P.MGs) == 0 {
+				return false
+			}
+			tx.RCTSig.P.MGs = nil
+			return true
+		}),
+		mgEdit("mgs-dropped-last", true, func(x *tamperCtx, tx *types.UTXOTransaction) bool {
+			n := len(tx.RCTSig.P.MGs)
+			if n == 0 {
+				return false
+			}
+			tx.RCTSig.P.MGs = tx.RCTSig.P.MGs[:n-1]
+			return true
+		}),
+		mgEdit("mgs-extra-appended", true, func(x *tamperCtx, tx *types.UTXOTransaction) bool {
+			n := len(tx.RCTSig.P.MGs)
+			if n == 0 {
+				return false
+			}
+			tx.RCTSig.P.MGs = append(tx.RCTSig.P.MGs, tx.RCTSig.P.MGs[n-1])
+			return true
+		}),
+		mgEdit("mgs-rows-dropped", false, func(x *tamperCtx, tx *types.UTXOTransaction) bool {
+			n := len(tx.RCTSig.P.MGs)
+			if n == 0 {
+				return false
+			}
+			i := x.t.Int(n)
+			if len(tx.RCTSig.P.MGs[i].Ss) == 0 {
+				// short-ring form: the slot is empty; fill it
+				tx.RCTSig.P.MGs[i].Ss = lk.KeyM{lk.KeyV{randScalar(x), randScalar(x)}}
+				return true
+			}
+			tx.RCTSig.P.MGs[i].Ss = nil
+			return true
+		}),
+		mgEdit("mgs-row-dropped-last", false, func(x *tamperCtx, tx *types.UTXOTransaction) bool {
+			n := len(tx.RCTSig.P.MGs)
+			if n == 0 {
+				return false
+			}
+			i := x.t.Int(n)
+			r := len(tx.RCTSig.P.MGs[i].Ss)
+			if r == 0 {
+				return false
+			}
+			tx.RCTSig.P.MGs[i].Ss = tx.RCTSig.P.MGs[i].Ss[:r-1]
+			return true
+		}),
+		mgEdit("mgs-column-dropped", false, func(x *tamperCtx, tx *types.UTXOTransaction) bool {
+			n := len(tx.RCTSig.P.MGs)
+			if n == 0 {
+				return false
+			}
+			i := x.t.Int(n)
+			rows := tx.RCTSig.P.MGs[i].Ss
+			if len(rows) == 0 || len(rows[0]) < 2 {
+				return false
+			}
+			for k := range rows {
+				if len(rows[k]) > 1 {
+					rows[k] = rows[k][:1] // the commitment column goes
+				}
+			}
+			return true
+		}),
+		mgEdit("mgs-cc-zeroed", false, func(x *tamperCtx, tx *types.UTXOTransaction) bool {
+			n := len(tx.RCTSig.P.MGs)
+			if n == 0 {
+				return false
+			}
+			i := x.t.Int(n)
+			if tx.RCTSig.P.MGs[i].Cc == (lk.Key{}) {
+				tx.RCTSig.P.MGs[i].Cc = randScalar(x)
+				return true
+			}
+			tx.RCTSig.P.MGs[i].Cc = lk.Key{}
+			return true
+		}),
+		mgEdit("mgs-swapped", false, func(x *tamperCtx, tx *types.UTXOTransaction) bool {
+			mg := tx.RCTSig.P.MGs
+			if len(mg) < 2 || (len(mg[0].Ss) == 0 && len(mg[1].Ss) == 0) {
+				return false
+			}
+			mg[0], mg[1] = mg[1], mg[0]
+			return true
+		}),
+		utxTamper{name: "mgs-and-ss-dropped", comp: "ring-signature", uin: true, rct: true, auth: true, apply: func(x *tamperCtx, tx *types.UTXOTransaction, tr *utxTruth) bool {
+			tx.RCTSig.P.MGs, tx.RCTSig.P.Ss = nil, nil
+			return true
+		}},
+		utxTamper{name: "pseudo-outs-dropped", comp: "ring-signature", uin: true, rct: true, auth: true, apply: func(x *tamperCtx, tx *types.UTXOTransaction, tr *utxTruth) bool {
+			if len(tx.RCTSig.P.PseudoOuts) == 0 {
+				return false
+			}
+			tx.RCTSig.P.PseudoOuts = tx.RCTSig.P.PseudoOuts[:len(tx.RCTSig.P.PseudoOuts)-1]
+			return true
+		}},
+		utxTamper{name: "pseudo-outs-swapped", comp: "ring-signature", uin: true, rct: true, auth: true, apply: func(x *tamperCtx, tx *types.UTXOTransaction, tr *utxTruth) bool {
+			po := tx.RCTSig.P.PseudoOuts
+			if len(po) < 2 || po[0] == po[1] {
+				return false
+			}
+			po[0], po[1] = po[1], po[0] // the sum is unchanged
+			// MLSAG form: each signature is made against its own pseudo output.
+			// Short-ring form: the pseudo outputs enter the verification only
+			// through their sum (the other side of the listed finding
+			// inflation/short-ring-pseudo-out-unbound), and the message hash of
+			// this signature type does not cover them: a re-split changes the
+			// transaction id and nothing else.
+			x.dynUnused = ringSize(tx) == 1
+			return true
+		}},
+		utxTamper{name: "pseudo-outs-moved-to-base-part", comp: "ring-signature", uin: true, rct: true, auth: true, apply: func(x *tamperCtx, tx *types.UTXOTransaction, tr *utxTruth) bool {
+			if len(tx.RCTSig.P.PseudoOuts) == 0 {
+				return false
+			}
+			tx.RCTSig.RctSigBase.PseudoOuts = tx.RCTSig.P.PseudoOuts
+			tx.RCTSig.P.PseudoOuts = nil
+			return true
+		}},
+		utxTamper{name: "ring-shrunk-to-short-form", comp: "inputs", uin: true, auth: true, apply: func(x *tamperCtx, tx *types.UTXOTransaction, tr *utxTruth) bool {
+			// an MLSAG-signed input re-declared as a one-member ring: the verifier
+			// would look for a classic signature in P.Ss (zero-filled by the builder)
+			changed := false
+			for _, in := range tx.Inputs {
+				u, ok := in.(*types.UTXOInput)
+				if !ok || len(u.KeyOffset) < 2 {
+					continue
+				}
+				j := x.t.Int(len(u.KeyOffset))
+				abs := uint64(0)
+				for k := 0; k <= j; k++ {
+					abs += u.KeyOffset[k]
+				}
+				u.KeyOffset = []uint64{abs}
+				changed = true
+			}
+			return changed
+		}},
+		utxTamper{name: "ring-grown-from-short-form", comp: "inputs", uin: true, auth: true, apply: func(x *tamperCtx, tx *types.UTXOTransaction, tr *utxTruth) bool {
+			changed := false
+			for _, in := range tx.Inputs {
+				u, ok := in.(*types.UTXOInput)
+				if !ok || len(u.KeyOffset) != 1 || x.w.utxoNext < 2 {
+					continue
+				}
+				if u.KeyOffset[0]+1 < x.w.utxoNext {
+					u.KeyOffset = append(u.KeyOffset, 1)
+				} else {
+					u.KeyOffset = []uint64{u.KeyOffset[0] - 1, 1}
+				}
+				changed = true
+			}
+			return changed
+		}},
+		utxTamper{name: "input-repeated", comp: "inputs", uin: true, auth: true, apply: func(x *tamperCtx, tx *types.UTXOTransaction, tr *utxTruth) bool {
+			// the same input (and its authorisation) listed twice
+			u := uinOf(tx)
+			if u == nil {
+				return false
+			}
+			c := *u
+			tx.Inputs = append(tx.Inputs, &c)
+			if len(tx.RCTSig.P.MGs) > 0 {
+				tx.RCTSig.P.MGs = append(tx.RCTSig.P.MGs, tx.RCTSig.P.MGs[0])
+			}
+			if len(tx.RCTSig.P.Ss) > 0 {
+				tx.RCTSig.P.Ss = append(tx.RCTSig.P.Ss, tx.RCTSig.P.Ss[0])
+			}
+			if len(tx.RCTSig.P.PseudoOuts) > 0 {
+				tx.RCTSig.P.PseudoOuts = append(tx.RCTSig.P.PseudoOuts, tx.RCTSig.P.PseudoOuts[0])
+			}
+			return true
+		}},
+		utxTamper{name: "input-dropped", comp: "inputs", uin: true, auth: true, apply: func(x *tamperCtx, tx *types.UTXOTransaction, tr *utxTruth) bool {
+			if nUin(tx) < 2 {
+				return false
+			}
+			tx.Inputs = tx.Inputs[:len(tx.Inputs)-1]
+			if n := len(tx.RCTSig.P.MGs); n > 0 {
+				tx.RCTSig.P.MGs = tx.RCTSig.P.MGs[:n-1]
+			}
+			if n := len(tx.RCTSig.P.Ss); n > 0 {
+				tx.RCTSig.P.Ss = tx.RCTSig.P.Ss[:n-1]
+			}
+			return true
+		}},
+		utxTamper{name: "outpk-dropped-last", comp: "commitments", uin: true, rct: true, apply: func(x *tamperCtx, tx *types.UTXOTransaction, tr *utxTruth) bool {
+			n := len(tx.RCTSig.OutPk)
+			if n == 0 {
+				return false
+			}
+			tx.RCTSig.OutPk = tx.RCTSig.OutPk[:n-1]
+			return true
+		}},
+		utxTamper{name: "ecdh-dropped-last", comp: "ecdh", uin: true, rct: true, apply: func(x *tamperCtx, tx *types.UTXOTransaction, tr *utxTruth) bool {
+			n := len(tx.RCTSig.EcdhInfo)
+			if n == 0 {
+				return false
+			}
+			tx.RCTSig.EcdhInfo = tx.RCTSig.EcdhInfo[:n-1]
+			return true
+		}},
+		utxTamper{name: "range-proof-dropped", comp: "range-proof", uin: true, rct: true, apply: func(x *tamperCtx, tx *types.UTXOTransaction, tr *utxTruth) bool {
+			if len(tx.RCTSig.P.Bulletproofs) == 0 {
+				return false
+			}
+			tx.RCTSig.P.Bulletproofs = nil
+			return true
+		}},
+		utxTamper{name: "range-proof-repeated", comp: "range-proof", uin: true, rct: true, apply: func(x *tamperCtx, tx *types.UTXOTransaction, tr *utxTruth) bool {
+			if len(tx.RCTSig.P.Bulletproofs) == 0 {
+				return false
+			}
+			tx.RCTSig.P.Bulletproofs = append(tx.RCTSig.P.Bulletproofs, tx.RCTSig.P.Bulletproofs[0])
+			return true
+		}},
+	)
+}
+
 // redistribute is what a recipient of output 0 of an account->UTXO
 // transaction can compute from public data and his own view of the
 // transaction: all value on his output, nothing on the others; commitments,
@@ -740,10 +1075,50 @@ func (x *tamperCtx) mutateUtx(wireSig []int) (wt *wireTx, name, comp string, rct
 		}
 	}
 	e := cands[x.t.Int(len(cands))]
+	if !isAin && x.t.Bool(1, 3) {
+		var auth []*utxTamper
+		for _, c := range cands {
+			if c.auth {
+				auth = append(auth, c)
+			}
+		}
+		if len(auth) > 0 {
+			e = auth[x.t.Int(len(auth))]
+		}
+	}
 	applied := false
+	x.dynUnused = false
 	_, _, panicked := kernel.Try(func() { applied = e.apply(x, tx, s.utx) })
 	if panicked || !applied {
 		return nil, "", "", false, false, false
+	}
+	if x.t.Bool(1, 8) {
+		// a second, independent edit of the authorisation data
+		var auth []*utxTamper
+		for _, c := range cands {
+			if c.auth && c != e {
+				auth = append(auth, c)
+			}
+		}
+		if len(auth) > 0 && e.auth {
+			e2 := auth[x.t.Int(len(auth))]
+			first := x.dynUnused
+			x.dynUnused = false
+			ok2 := false
+			if _, _, p2 := kernel.Try(func() { ok2 = e2.apply(x, tx, s.utx) }); p2 {
+				return nil, "", "", false, false, false
+			}
+			if ok2 {
+				raw := encodeTx(tx)
+				w2, err := parseUtxWire(raw)
+				if err != nil || bytes.Equal(raw, s.raw) {
+					return nil, "", "", false, false, false
+				}
+				// both edits must be of unused data for the pair to be unused
+				return w2, e.name + "+" + e2.name, e.comp, e.rct && e2.rct, (e.unused || first) && (e2.unused || x.dynUnused), true
+			}
+			x.dynUnused = first
+		}
 	}
 	raw := encodeTx(tx)
 	if bytes.Equal(raw, s.raw) {
@@ -753,5 +1128,5 @@ func (x *tamperCtx) mutateUtx(wireSig []int) (wt *wireTx, name, comp string, rct
 	if err != nil {
 		return nil, "", "", false, false, false
 	}
-	return w2, e.name, e.comp, e.rct, e.unused, true
+	return w2, e.name, e.comp, e.rct, e.unused || x.dynUnused, true
 }
